@@ -259,6 +259,15 @@ func genParams(tier string, seed uint64) []Params {
 	for i := 0; i < nA; i++ {
 		out = append(out, genOne(r, len(out), seed, gatedModes[i%len(gatedModes)], true, false, tier))
 	}
+	// the dialled connection carries TLS: weak trace inclusion (client side and endpoints observed,
+	// the dialled side re-inserted by the model), byte-level payloads only
+	nT := 36
+	if tier == "thorough" {
+		nT = 400
+	}
+	for i := 0; i < nT; i++ {
+		out = append(out, genOne(r, len(out), seed, []string{"uphttps", "upgradetls"}[i%2], true, true, tier))
+	}
 	for i := 0; i < nN; i++ {
 		out = append(out, genOne(r, len(out), seed, nativeModes[i%len(nativeModes)], false, i%3 == 0, tier))
 	}
@@ -441,8 +450,8 @@ func coqCase(o outcome, graceNs int64) string {
 		tr := fmt.Sprintf("(%s %s)", fn, hexChunks(traceString(o.built.Labels, p.Concrete)))
 		ok := len(o.built.Problems) == 0
 		if p.Concrete {
-			fmt.Fprintf(&sb, "{| cc_mode := %d; cc_wellformed := %s; cc_grace := (%d)%%Z; cc_fr := %s; cc_tmo := %s; cc_treq := (%d)%%Z; cc_tresp := (%d)%%Z; cc_early := %s; cc_skip := %s; cc_kept := %s;\n   cc_trace := %s;\n   cc_obs := %s |}",
-				modeN(p.Mode), b2c(ok), graceNs, coqFraming(p), coqTimeouts(p), o.built.TReq, o.built.TResp, hexs(o.built.Early), hexs(o.built.Skip), hexs(o.built.Kept), tr, coqObs(o, true))
+			fmt.Fprintf(&sb, "{| cc_mode := %d; cc_wellformed := %s; cc_grace := (%d)%%Z; cc_fr := %s; cc_tmo := %s; cc_treq := (%d)%%Z; cc_tresp := (%d)%%Z; cc_weak := %s; cc_cipher_w := %d; cc_cipher_r := %d; cc_early := %s; cc_skip := %s; cc_kept := %s;\n   cc_trace := %s;\n   cc_obs := %s |}",
+				modeN(p.Mode), b2c(ok), graceNs, coqFraming(p), coqTimeouts(p), o.built.TReq, o.built.TResp, b2c(o.built.Weak), o.built.CipherW, o.built.CipherR, hexs(o.built.Early), hexs(o.built.Skip), hexs(o.built.Kept), tr, coqObs(o, true))
 		} else {
 			fmt.Fprintf(&sb, "{| ac_mode := %d; ac_wellformed := %s; ac_grace := (%d)%%Z; ac_fr := %s; ac_tmo := %s; ac_treq := (%d)%%Z; ac_tresp := (%d)%%Z; ac_early := %d; ac_skip := %d; ac_kept := %d;\n   ac_trace := %s;\n   ac_obs := %s |}",
 				modeN(p.Mode), b2c(ok), graceNs, coqFraming(p), coqTimeouts(p), o.built.TReq, o.built.TResp, o.built.EarlyN, o.built.SkipN, o.built.KeptN, tr, coqObs(o, false))
@@ -454,7 +463,7 @@ func coqCase(o outcome, graceNs int64) string {
 
 const shardHead = `From Coq Require Import List NArith ZArith String.
 From FwdLib Require Import Bytes.
-From G03 Require Import Tables Tunnel Abstract ReplyReader Deadlines Check.
+From G03 Require Import Tables Tunnel Abstract Weak ReplyReader Deadlines Check.
 Import ListNotations.
 Open Scope N_scope.
 `
@@ -663,6 +672,9 @@ func main() {
 		}
 		if p.ReadTimeoutMs > 0 {
 			dist["tunnel_older_than_read_write_idle_timeouts"]++
+		}
+		if o.built.Weak {
+			dist["gated_weak_inclusion_tls"]++
 		}
 		if p.Gated {
 			dist["gated"]++
